@@ -410,6 +410,11 @@ func runC11Request(c *fw.Ctx, id string, i int) {
 		return
 	}
 	defer env.close()
+	if proto == "tcp" {
+		// every flow generates and installs its own capture filter while the others do the same (the race detector
+		// watches the generators; an installed program that is later changed under its owner hides that owner's replies)
+		env.w.Mode = simnet.FilterEnforce
+	}
 	env.modelFor = func(k int, e *simEnv) *pathModel {
 		return flowPath(k, e, 4, true, time.Duration(2+k*2)*time.Millisecond)
 	}
